@@ -503,10 +503,24 @@ def sib_iter(ctx: Ctx) -> List[Ob]:
                             return True
                 return False
 
+            def truthy(c: ast.Call) -> bool:
+                # the verdict is used for its truth value: None (no verdict) is falsy like False
+                for e, pol in lpc:
+                    for e_ in (e, getattr(e, "_orig", e)):
+                        if e_ is c:
+                            return True
+                        if any(c is x for x in ast.walk(e_)):
+                            par_ = ctx.model.parent_of(c)
+                            if isinstance(par_, ast.BoolOp) or (isinstance(par_, ast.UnaryOp) and isinstance(par_.op, ast.Not)) or isinstance(par_, (ast.If, ast.While)):
+                                return True
+                return False
+
             if all(tested(c) for c in firsts):
                 oks = True
             elif any(isinstance(ctx.model.parent_of(c), ast.Expr) for c in firsts):
                 oks = False  # the verdict is thrown away
+            elif any(truthy(c) for c in firsts):
+                oks = False  # `if not cb(...)`: a callback that returns nothing would end the visit
         obs.append(ctx.tri("SIB-ITER", ["C06"], f, "visit: a skip verdict on the start node ends the visit", firsts[0] if firsts else None, oks,
                            "SkipBranch on the start node must suppress all descendants"))
         if len(loops) == 1:
